@@ -246,6 +246,23 @@ def roundtrip(mon: Mon, ctx, rng, tp):
     if header != header_before:
         ctx.violation("caller-header-modified", f"jwt.encode changed the caller's header {header_before!r} -> {header!r}", case)
     token = o.value
+    dec_kw = {}
+    r = rng.random()
+    if r < 0.15:
+        # a caller's own JSON decoder class, with a constructor of its own: it is used as it is and the claims still come back
+        class OwnSignatureDecoder(json.JSONDecoder):
+            def __init__(self):
+                super().__init__()
+        dec_kw = {"decoder_cls": OwnSignatureDecoder}
+        ctx.count("roundtrips_with_caller_decoder")
+    elif r < 0.3:
+        class HookDecoder(json.JSONDecoder):
+            def __init__(self, **kwargs):
+                kwargs.setdefault("object_pairs_hook", dict)
+                super().__init__(**kwargs)
+        dec_kw = {"decoder_cls": HookDecoder}
+        ctx.count("roundtrips_with_caller_decoder")
+    kw = {**kw, **dec_kw}
     d, ev = mon.decode(token, dk, **kw)
     ctx.count("roundtrips")
     ctx.nontrivial((expect, header_before, tp["kind"], tp["alg"]))
@@ -389,6 +406,7 @@ def run_shard(ctx):
 
 
 REQUIRE = [("roundtrips", 600, "encode/decode round trips"), ("hostile_payloads", 300, "hostile payloads"),
+           ("roundtrips_with_caller_decoder", 60, "round trips decoded with a JSON decoder class of the caller"),
            ("payload_parse_events", 400, "json.loads events seen by the order monitor")]
 
 
